@@ -108,8 +108,8 @@ func siteCases(o *hx.Out) {
 	msgv := chat.Message{Text: "hi", Extra: []chat.Message{{Text: "x", Bold: true}}}
 	// ---- play state: every packet id that has a handler, through the bot's own dispatch
 	play := map[packetid.ClientboundPacketID][][]byte{
-		packetid.ClientboundDisconnect:    {enc(msgv)},
-		packetid.ClientboundSetHealth:     {enc(pk.Float(20), pk.VarInt(20), pk.Float(5))},
+		packetid.ClientboundDisconnect:     {enc(msgv)},
+		packetid.ClientboundSetHealth:      {enc(pk.Float(20), pk.VarInt(20), pk.Float(5))},
 		packetid.ClientboundPlayerPosition: {enc(pk.Double(1), pk.Double(2), pk.Double(3), pk.Float(0), pk.Float(0), pk.Byte(0), pk.VarInt(7))},
 		packetid.ClientboundLogin: {enc(pk.Int(1), pk.Boolean(false), pk.Array([]pk.Identifier{"minecraft:overworld", "minecraft:the_end"}),
 			pk.VarInt(20), pk.VarInt(10), pk.VarInt(10), pk.Boolean(false), pk.Boolean(true), pk.Boolean(false), pk.VarInt(0),
@@ -124,13 +124,13 @@ func siteCases(o *hx.Out) {
 		packetid.ClientboundPlayerChat: {enc(pk.UUID{1}, pk.VarInt(0), pk.Boolean(false), pk.String("hello"), pk.Long(1), pk.Long(2), pk.VarInt(1), pk.VarInt(3),
 			pk.Boolean(true), msgv, pk.VarInt(0), pk.VarInt(1), msgv, pk.Boolean(false)),
 			enc(pk.UUID{1}, pk.VarInt(0), pk.Boolean(true), pk.ByteArray(bytes.Repeat([]byte{7}, 256))[:0], pk.String("x"))},
-		packetid.ClientboundDisguisedChat:      {enc(msgv, pk.VarInt(1), msgv, pk.Boolean(true), msgv)},
-		packetid.ClientboundOpenScreen:         {enc(pk.VarInt(1), pk.VarInt(2), msgv)},
+		packetid.ClientboundDisguisedChat:       {enc(msgv, pk.VarInt(1), msgv, pk.Boolean(true), msgv)},
+		packetid.ClientboundOpenScreen:          {enc(pk.VarInt(1), pk.VarInt(2), msgv)},
 		packetid.ClientboundContainerSetContent: {enc(pk.UnsignedByte(0), pk.VarInt(1), pk.VarInt(2), pk.VarInt(1), pk.VarInt(5), pk.VarInt(0), pk.VarInt(0), pk.VarInt(0), pk.VarInt(0))},
-		packetid.ClientboundContainerClose:     {enc(pk.UnsignedByte(1))},
-		packetid.ClientboundContainerSetSlot:   {enc(pk.Byte(0), pk.VarInt(1), pk.Short(3), pk.VarInt(2), pk.VarInt(9), pk.VarInt(0), pk.VarInt(0))},
+		packetid.ClientboundContainerClose:      {enc(pk.UnsignedByte(1))},
+		packetid.ClientboundContainerSetSlot:    {enc(pk.Byte(0), pk.VarInt(1), pk.Short(3), pk.VarInt(2), pk.VarInt(9), pk.VarInt(0), pk.VarInt(0))},
 		packetid.ClientboundLevelChunkWithLight: {append(enc(pk.Int(1), pk.Int(-2)), enc(sampleChunk(24, false))...)},
-		packetid.ClientboundForgetLevelChunk:   {enc(pk.Int(3), pk.Int(4))},
+		packetid.ClientboundForgetLevelChunk:    {enc(pk.Int(3), pk.Int(4))},
 		// bot/playerlist decodes these by hand: action bit mask, VarInt count, per-action fields
 		packetid.ClientboundPlayerInfoUpdate: {
 			enc(pk.Byte(0x3f), pk.VarInt(1), pk.UUID{7}, pk.String("Steve"), pk.VarInt(1), pk.String("textures"), pk.String("v"), pk.Boolean(false),
@@ -147,6 +147,20 @@ func siteCases(o *hx.Out) {
 		pid := packetid.ClientboundPacketID(id)
 		siteFuzz(o, "play."+pid.String(), play[pid], func(b []byte) error {
 			return c.VerifC08HandlePacket(pk.Packet{ID: int32(id), Data: append([]byte{}, b...)})
+		})
+	}
+	// the same handlers on a FRESH client per case: a handler whose first valid packet changes the client's
+	// state (a screen that is now open, a player that is now listed) takes another path afterwards, and the
+	// mutated fields are only looked at on the first path (OpenScreen with a negative window type)
+	play[packetid.ClientboundOpenScreen] = append(play[packetid.ClientboundOpenScreen],
+		enc(pk.VarInt(7), pk.VarInt(-2), msgv), enc(pk.VarInt(8), pk.VarInt(-1), msgv), enc(pk.VarInt(9), pk.VarInt(5), msgv), enc(pk.VarInt(9), pk.VarInt(6), msgv))
+	for id := 0; id < int(packetid.ClientboundPacketIDGuard); id++ {
+		pid := packetid.ClientboundPacketID(id)
+		if !c.VerifC08HasHandler(id) || len(play[pid]) == 0 || pid == packetid.ClientboundLevelChunkWithLight {
+			continue
+		}
+		siteFuzz(o, "play1."+pid.String(), play[pid], func(b []byte) error {
+			return fuzzClient().VerifC08HandlePacket(pk.Packet{ID: int32(id), Data: append([]byte{}, b...)})
 		})
 	}
 	// ---- configuration state
